@@ -8,4 +8,5 @@ CONSTANTS
   RejectTrailing = TRUE
   ValidateFiles = TRUE
   CompressionTransparent = FALSE
+  ZeroCRCCompared = TRUE
 INVARIANTS SinkUnmutatedInstalls
